@@ -2104,7 +2104,12 @@ func (gs *GossipSubRouter) flush() {
 	// send the remaining control messages that wasn't merged with gossip
 	for p, ctl := range gs.control {
 		delete(gs.control, p)
-		out := rpcWithControl(nil, nil, nil, ctl.Graft, ctl.Prune, nil)
+		// retried GRAFT/PRUNE go through the same staleness filter as piggybacked ones
+		out := rpcWithControl(nil, nil, nil, nil, nil, nil)
+		gs.piggybackControl(p, out, ctl)
+		if len(out.GetControl().GetGraft()) == 0 && len(out.GetControl().GetPrune()) == 0 {
+			continue
+		}
 		gs.sendRPC(p, out, false)
 	}
 }
